@@ -6,7 +6,7 @@ import traceback
 
 import numpy as np
 
-from harness import lat_common
+from harness import c07_extra, lat_common
 from harness.common import rowsstr
 
 
@@ -66,8 +66,10 @@ def pauli_histories(ctx):
     """Histories on ONE lattice-Pauli object per trial: operations interleaved with to_bsf() / operator() reads.
     After every operation: to_bsf() == previous bsf XOR (the operation applied to a fresh Pauli), every site's
     operator() letter agrees with the bsf bits, equality and copy() agree; every third history starts from
-    new_pauli(published row).copy(): the copy is independent, the published matrices never change.
-    Model-free (implementation only)."""
+    new_pauli(published row).copy(): the copy is independent, the published matrices never change.  About half of the
+    site() operations carry several indices in ONE call (repeats, other spellings of the same qubit on the tori); their
+    effect is that of the indices applied one call at a time.  Model-free (implementation only; c07_extra.multi_index_calls
+    is the model-backed counterpart)."""
     from qecsim.models.planar import PlanarCode
     from qecsim.models.toric import ToricCode
     from qecsim.models.rotatedplanar import RotatedPlanarCode
@@ -75,6 +77,25 @@ def pauli_histories(ctx):
     from qecsim.models.color import Color666Code
     import itertools
     rng = ctx.rng
+
+    def site_op(sites, respell=None):
+        """site(op, *indices): mostly one index, otherwise several in ONE call (literal repeats and, on the tori, other
+        spellings of the same qubit included); the reference effect applies the indices one call at a time"""
+        o = rng.choice('XYZ')
+        k = 1 if rng.random() < 0.5 else rng.randint(2, 5)
+        idxs = [rng.choice(sites) for _ in range(k)]
+        if k > 1 and rng.random() < 0.6:
+            j = rng.choice(idxs)
+            idxs.insert(rng.randrange(len(idxs) + 1), respell(j) if respell and rng.random() < 0.7 else j)
+        if respell:
+            idxs = [respell(j) if rng.random() < 0.2 else j for j in idxs]
+        idxs = tuple(idxs)
+
+        def one_by_one(p):
+            for j in idxs:
+                p.site(o, j)
+            return p
+        return 'site %s %s' % (o, ' '.join(str(j) for j in idxs)), (lambda p: p.site(o, *idxs)), one_by_one
 
     def fam_planar(code):
         mr, mc = code.bounds
@@ -85,8 +106,7 @@ def pauli_histories(ctx):
         def ops():
             r = rng.random()
             if r < 0.3:
-                o, i = rng.choice('XYZ'), rng.choice(sites)
-                return 'site %s %s' % (o, i), lambda p: p.site(o, i)
+                return site_op(sites)
             if r < 0.55:
                 i = rng.choice(plaqs)
                 return 'plaquette %s' % (i,), lambda p: p.plaquette(i)
@@ -101,11 +121,13 @@ def pauli_histories(ctx):
     def fam_toric(code):
         sites = list(itertools.product(*[range(d) for d in code.shape]))
 
+        def respell(i):
+            return tuple(v + d * rng.randint(-2, 2) for v, d in zip(i, code.shape))
+
         def ops():
             r = rng.random()
             if r < 0.3:
-                o, i = rng.choice('XYZ'), rng.choice(sites)
-                return 'site %s %s' % (o, i), lambda p: p.site(o, i)
+                return site_op(sites, respell)
             if r < 0.5:
                 i = rng.choice(sites)
                 return 'plaquette %s' % (i,), lambda p: p.plaquette(i)
@@ -125,11 +147,13 @@ def pauli_histories(ctx):
         sites = list(itertools.product(range(mx + 1), range(my + 1)))
         plaqs = [tuple(i) for i in code._plaquette_indices]
 
+        def respell(i):
+            return tuple(v + (d + 1) * rng.randint(-2, 2) for v, d in zip(i, (mx, my)))
+
         def ops():
             r = rng.random()
             if r < 0.35:
-                o, i = rng.choice('XYZ'), rng.choice(sites)
-                return 'site %s %s' % (o, i), lambda p: p.site(o, i)
+                return site_op(sites, respell if toric else None)
             if r < 0.6:
                 i = rng.choice(plaqs)
                 return 'plaquette %s' % (i,), lambda p: p.plaquette(i)
@@ -149,8 +173,7 @@ def pauli_histories(ctx):
         def ops():
             r = rng.random()
             if r < 0.4:
-                o, i = rng.choice('XYZ'), rng.choice(sites)
-                return 'site %s %s' % (o, i), lambda p: p.site(o, i)
+                return site_op(sites)
             if r < 0.75:
                 o, i = rng.choice('XYZ'), rng.choice(plaqs)
                 return 'plaquette %s %s' % (o, i), lambda p: p.plaquette(o, i)
@@ -202,9 +225,10 @@ def _pauli_history_case(ctx, rng, code, fam, LET):
             p = code.new_pauli()
             cur = p.to_bsf().copy() if rng.random() < 0.7 else np.zeros(2 * n, dtype=int)
         for step in range(rng.randint(2, 8)):
-            name, f = ops()
+            name, f, *ref = ops()
             hist.append(name)
-            delta = f(code.new_pauli()).to_bsf()
+            # the operation's own effect: on a fresh Pauli; a call carrying several indices = the indices one call at a time
+            delta = (ref[0] if ref else f)(code.new_pauli()).to_bsf()
             f(p)
             cur = cur ^ delta
             reads = rng.random() < 0.8          # sometimes several operations happen between reads
@@ -242,13 +266,17 @@ def run(ctx):
     ctx.rule = ('per family: every size up to the tier bound (non-square, minimal, odd/even) compared row by row with '
                 'the Gallina model; constructor argument stream; validity, GF(2) ranks, n/k vs shapes and flatten '
                 'bijection evaluated on the implementation; translated integer kernels vs Python originals on a grid '
-                'inside the kernel. nontrivial = non-square or minimal size / argument-carrying case')
+                'inside the kernel; site() calls carrying several indices (repeats, equivalent spellings, no-op indices) '
+                'against the model and one-by-one application; matrix-free index-map pass at sizes whose qubit count '
+                'crosses 2^8 / 2^15 / 2^16. nontrivial = non-square or minimal size / argument-carrying case')
     lat_common.prepare(ctx)
     lat_common.stage(ctx, 'interrupted_evaluations', lat_common.interrupted_evaluations)
     lat_common.stage(ctx, 'cold_queries', lat_common.cold_queries)
     fams = lat_common.run_families(ctx, 'check_c07')
     lat_common.stage(ctx, 'basic_codes', basic_codes)
+    lat_common.stage(ctx, 'multi_index_calls', c07_extra.multi_index_calls)
     lat_common.stage(ctx, 'pauli_histories', pauli_histories)
+    lat_common.stage(ctx, 'wide_index_sizes', c07_extra.wide_index_sizes)
     lat_common.stage(ctx, 'optimised_mode', lat_common.optimised_mode)
     lat_common.stage(ctx, 'final_recheck', lat_common.final_recheck)
     ctx.extra['families'] = fams + ['basic']
